@@ -39,7 +39,7 @@ RULE = (
     "Non-trivial: >=4 dispatches, >=2 jobs and the instance has recirculation, "
     "irregular jobs, unequal machine loads or a flexible operation."
 )
-BUDGET = {"quick": 500, "thorough": 3000}
+BUDGET = {"quick": 400, "thorough": 3000}
 ASSUMPTIONS = [
     "entities without unscheduled work are not asserted (DurationObserver documents stale values there)",
     "all observers are created before the first dispatch",
@@ -175,6 +175,21 @@ def check_case(case, ctx):
         d, [obs.observer_config(c) for c in case["composite_cfgs"]]
     )
     comp2_parts = comp2.feature_observers
+    # a composite created with the default component list picks up every
+    # subscribed feature observer, the two composites above included
+    comp3 = None
+    if case.get("consumers", 0) % 2 == 0:
+        from job_shop_lib.dispatching.feature_observers import FeatureObserver as _FO
+
+        expected_parts3 = [o for o in d.subscribers if isinstance(o, _FO)]
+        comp3 = CompositeFeatureObserver(d)
+        ctx.check(
+            len(comp3.feature_observers) == len(expected_parts3)
+            and all(a is b for a, b in zip(comp3.feature_observers, expected_parts3)),
+            "composite-default-parts",
+            f"CompositeFeatureObserver(dispatcher) aggregates {[type(o).__name__ for o in comp3.feature_observers]}, "
+            f"subscribed feature observers are {[type(o).__name__ for o in expected_parts3]}",
+        )
     ctx.check(
         [type(o) for o in comp2_parts] == [obs.CLASSES[c[0]] for c in case["composite_cfgs"]],
         "composite-from-configs",
@@ -253,6 +268,14 @@ def check_case(case, ctx):
                     )
         check_composite(comp1, parts, where)
         check_composite(comp2, comp2_parts, where)
+        if comp3 is not None:
+            check_composite(comp3, comp3.feature_observers, where + " (composite over all subscribed, nested)")
+            for ft, frame in (comp3.features_as_dataframe.items() if m.complete() else ()):
+                ctx.check(
+                    list(frame.columns) == list(comp3.column_names[ft]) and frame.shape == comp3.features[ft].shape,
+                    "composite-dataframe",
+                    f"{where}: features_as_dataframe[{ft.value}] has columns {list(frame.columns)}",
+                )
 
     if not huge:
         # (with durations beyond float32 the matrix of absolute earliest start
